@@ -755,7 +755,7 @@ class Mapping(StageRun):
         return bool(o['json_keys'] and 'results' in o['json_keys']) \
             or o['csv_exists'] \
             or bool(o['h5_datasets'] and o['h5_datasets'] != ['metadata']) \
-            or bool(o['log_text'] and 'RAN SUCCESSFULLY' in o['log_text'])
+            or bool(o['log_text'] and 'success' in o['log_text'].lower())
 
     def canonical(self):
         """JSON minus timestamps/durations/log/config paths, CSV body, HDF5
